@@ -3,6 +3,7 @@ package world
 import (
 	"fmt"
 	"net/http"
+	"sort"
 	"strings"
 	"time"
 
@@ -388,6 +389,7 @@ func runC08(c *worker.Ctx) {
 	for k := range fired {
 		fk = append(fk, k)
 	}
+	sort.Strings(fk)
 	res.Sig = fmt.Sprintf("%s|%v|%s", wdesc, fk, term)
 	res.Nontrivial = len(fired) > 0 || boundary || workload >= 2 || term != "ok"
 	if c.Render {
